@@ -58,7 +58,7 @@ type Server struct {
 	DB      objects.Store
 	RS      ref.Store
 	MaxPack uint64
-	// OneBytePerFlush makes packfile responses trickle out one byte per chunk (C18 over real HTTP).
+	// OneBytePerFlush makes packfile and JSON responses trickle out one byte per chunk (C18 over real HTTP).
 	OneBytePerFlush bool
 
 	mu       sync.Mutex
@@ -112,10 +112,21 @@ func (s *Server) fail(w http.ResponseWriter, l *ReqLog, code int, msg string) {
 	http.Error(w, msg, code)
 }
 
-func writeJSON(w http.ResponseWriter, v interface{}) {
+func (s *Server) writeJSON(w http.ResponseWriter, v interface{}) {
 	b, _ := json.Marshal(v)
 	w.Header().Set("Content-Type", ctJSON)
 	w.WriteHeader(http.StatusOK)
+	if s.OneBytePerFlush {
+		// the answer trickles out: every byte its own chunk on the wire
+		fl, _ := w.(http.Flusher)
+		for i := range b {
+			w.Write(b[i : i+1])
+			if fl != nil {
+				fl.Flush()
+			}
+		}
+		return
+	}
 	w.Write(b)
 }
 
@@ -134,7 +145,7 @@ func (s *Server) handleRefs(w http.ResponseWriter, r *http.Request) {
 		resp.Refs[k] = payload.BytesToHex(v)
 	}
 	s.logReq(l)
-	writeJSON(w, resp)
+	s.writeJSON(w, resp)
 }
 
 func (s *Server) sessionID(r *http.Request, name string) string {
@@ -206,7 +217,7 @@ func (s *Server) offerTables(w http.ResponseWriter, l *ReqLog, id string, u *upl
 	l.Status = 200
 	l.Note = fmt.Sprintf("offered %d tables", n)
 	s.logReq(*l)
-	writeJSON(w, &payload.UploadPackResponse{TableHaves: payload.BytesSliceToHexSlice(batch)})
+	s.writeJSON(w, &payload.UploadPackResponse{TableHaves: payload.BytesSliceToHexSlice(batch)})
 }
 
 func (s *Server) handleUploadPack(w http.ResponseWriter, r *http.Request) {
@@ -247,7 +258,7 @@ func (s *Server) handleUploadPack(w http.ResponseWriter, r *http.Request) {
 			l.Status = 200
 			l.Note = fmt.Sprintf("acks %d", len(acks))
 			s.logReq(l)
-			writeJSON(w, &payload.UploadPackResponse{ACKs: payload.BytesSliceToHexSlice(acks)})
+			s.writeJSON(w, &payload.UploadPackResponse{ACKs: payload.BytesSliceToHexSlice(acks)})
 			return
 		}
 		u.tables, err = u.finder.TablesToSend()
@@ -340,7 +351,7 @@ func (s *Server) handleReceivePack(w http.ResponseWriter, r *http.Request) {
 		delete(s.receives, id)
 		l.Note = "report"
 		s.logReq(l)
-		writeJSON(w, &payload.ReceivePackResponse{Updates: ses.updates})
+		s.writeJSON(w, &payload.ReceivePackResponse{Updates: ses.updates})
 		return
 	}
 	body, _ := io.ReadAll(r.Body)
@@ -377,7 +388,7 @@ func (s *Server) handleReceivePack(w http.ResponseWriter, r *http.Request) {
 			l.Status = 200
 			l.Note = "report without objects"
 			s.logReq(l)
-			writeJSON(w, &payload.ReceivePackResponse{Updates: ses.updates})
+			s.writeJSON(w, &payload.ReceivePackResponse{Updates: ses.updates})
 			return
 		}
 		ses.receiver = apiutils.NewObjectReceiver(s.DB, expected, logr.Discard())
@@ -392,7 +403,7 @@ func (s *Server) handleReceivePack(w http.ResponseWriter, r *http.Request) {
 	l.Status = 200
 	l.Note = fmt.Sprintf("table acks %d", len(acks))
 	s.logReq(l)
-	writeJSON(w, &payload.ReceivePackResponse{TableACKs: payload.BytesSliceToHexSlice(acks)})
+	s.writeJSON(w, &payload.ReceivePackResponse{TableACKs: payload.BytesSliceToHexSlice(acks)})
 }
 
 func (s *Server) handleObjects(w http.ResponseWriter, r *http.Request) {
